@@ -4,7 +4,7 @@
    Generated/Gen_Html.v (T2 translation of filter_tag_id, filter_url_from_type, filter_make_unique,
    filter_namespace_doc, markupsafe escape, select_autoescape configuration, template names, explicit escape
    filters at documentation sinks -- regenerated from /repo on every run). *)
-From Verif Require Import HtmlModel HtmlThm HtmlThmTree HtmlThmLinks.
+From Verif Require Import HtmlModel HtmlThm HtmlThmTree HtmlThmLinks HtmlSkel HtmlThmSkel.
 Open Scope N_scope.
 
 (* (1) escape_no_markup: for EVERY string, the result of either escape function in use (html.escape inside make_unique,
@@ -69,7 +69,7 @@ Proof. intros cf n c. split; [exact (ns_page_frag cf n) | exact (type_page_frag 
 Print Assumptions C20_emit_tree_wf_pieces.
 
 Theorem C20_emit_type_wf :
-  forall cf t st attr_name nested, balanced_frag (snd (emit_ty cf st t attr_name nested)).
+  forall cf t up st attr_name nested, balanced_frag (snd (emit_ty cf up st t attr_name nested)).
 Proof. exact emit_ty_frag. Qed.
 Print Assumptions C20_emit_type_wf.
 
@@ -89,7 +89,8 @@ Print Assumptions C20_emit_tree_wf.
 
 (* (5) links.  The anchor inside a type URL is the id filter_tag_id gives (both translated from the source). *)
 Theorem C20_url_targets_tag_id :
-  forall t, ti_is_array t = false -> filter_url_from_type t = s_up ++ ti_root_ns t ++ s_slash_hash ++ filter_tag_id t.
+  forall t, ti_is_array t = false -> ti_has_parent t = false ->
+    filter_url_from_type t = s_up ++ ti_root_ns t ++ s_slash_hash ++ filter_tag_id t.
 Proof. exact url_targets_tag_id. Qed.
 Print Assumptions C20_url_targets_tag_id.
 
@@ -102,23 +103,59 @@ Print Assumptions C20_listed_ids_on_page.
    to a generated page and an id on it, for every site that generates c's root namespace and lists a type with c's id there *)
 Theorem C20_links_resolve_partial :
   forall cf roots r c r' c',
-    ae_ti cf = false -> seg_ok (ns_name r) = true -> ti_is_array (ci_t c) = false ->
+    ae_ti cf = false -> seg_ok (ns_name r) = true -> ti_is_array (ci_t c) = false -> ti_has_parent (ci_t c) = false ->
     In r' roots -> ns_name r' = ti_root_ns (ci_t c) -> seg_ok (ns_name r') = true ->
     In c' (all_listed r') -> filter_tag_id (ci_t c') = filter_tag_id (ci_t c) ->
     link_ok cf roots r (filter_url_from_type (ci_t c)) = true.
 Proof. exact links_resolve_partial. Qed.
 Print Assumptions C20_links_resolve_partial.
 
-(* links_resolve is false of the faithful model on nested-namespace pages (F-HTML-LINK-SUBNS) ... *)
-Theorem C20_links_resolve_refuted_subns :
-  page_links_ok faithful_cfg [w_site_subns] w_site_subns = true /\ page_links_ok faithful_cfg [w_site_subns] w_sub = false.
-Proof. exact links_refuted_subns. Qed.
-Print Assumptions C20_links_resolve_refuted_subns.
+(* links_resolve on nested-namespace pages (F-HTML-LINK-SUBNS): false of the model without the depth prefix, true with it
+   (design_notes/C20_links_fix.patch); the working tree is in the state `lk_up faithful_cfg`, regenerated from the templates *)
+Theorem C20_links_resolve_subns_by_state :
+  page_links_ok (set_lk_up faithful_cfg false) [w_site_subns] w_sub = false
+  /\ page_links_ok (set_lk_up faithful_cfg true) [w_site_subns] w_sub = true
+  /\ page_links_ok faithful_cfg [w_site_subns] w_site_subns = true
+  /\ page_links_ok faithful_cfg [w_site_subns] w_sub = lk_up faithful_cfg.
+Proof. exact links_subns_by_state. Qed.
+Print Assumptions C20_links_resolve_subns_by_state.
 
-(* ... and for the request/response halves of services (F-HTML-LINK-SVC) *)
-Theorem C20_links_resolve_refuted_svc : page_links_ok faithful_cfg [w_site_svc] w_site_svc = false.
-Proof. exact links_refuted_svc. Qed.
-Print Assumptions C20_links_resolve_refuted_svc.
+(* links_resolve for the request/response halves of services (F-HTML-LINK-SVC): holds exactly when the translated
+   filter_url_from_type sends them to the service's anchor *)
+Theorem C20_links_resolve_svc_by_state : page_links_ok faithful_cfg [w_site_svc] w_site_svc = url_links_service.
+Proof. exact links_svc_by_state. Qed.
+Print Assumptions C20_links_resolve_svc_by_state.
+
+(* (6) the REAL templates.  Generated/Gen_HtmlSkel.v holds, for every template and macro of lang/html/templates, the skeleton of
+   literal tags with the Jinja control structure, and the table of `{{ }}` output sites (regenerated on every run).
+   Soundness of the checker: if every skeleton of a table passes, every expansion of a passing skeleton -- any branch choices,
+   any loop counts, any attributes and text, any balanced fragment at an output site, macro calls and includes expanded
+   through the table -- is balanced and properly nested. *)
+Theorem C20_skeleton_balanced_sound :
+  forall tbl s, table_balanced tbl = true -> skeleton_balanced tbl s = true ->
+    forall ps, expands tbl s ps -> wf_pieces ps = true /\ balanced_frag ps.
+Proof. exact skeleton_balanced_sound. Qed.
+Print Assumptions C20_skeleton_balanced_sound.
+
+(* every regenerated template skeleton passes ... *)
+Theorem C20_html_templates_balanced : table_balanced html_skeletons = true.
+Proof. exact html_templates_balanced. Qed.
+Print Assumptions C20_html_templates_balanced.
+
+(* ... so every page the templates can produce is balanced, and well-formed as a scanned character stream when the values
+   inserted at the output sites cannot open markup *)
+Theorem C20_html_page_wf :
+  forall key s ps, sk_lookup html_skeletons key = Some s -> expands html_skeletons s ps ->
+    balanced_frag ps /\ (pieces_ok ps = true -> wf_tokens (scan None (render ps)) = true).
+Proof. exact html_page_wf. Qed.
+Print Assumptions C20_html_page_wf.
+
+(* all_dsdl_text_sinks_escaped: every output site of every template inserts a template constant, a number, a DSDL identifier,
+   a value that went through an escaping filter applied to the WHOLE expression, or (text positions only) display_type markup;
+   or its template is autoescaped.  (F-HTML-ESCAPE was: the five documentation sinks had class 8.) *)
+Theorem C20_all_dsdl_text_sinks_escaped : all_dsdl_text_sinks_escaped = true.
+Proof. exact html_sinks_escaped. Qed.
+Print Assumptions C20_all_dsdl_text_sinks_escaped.
 
 (* non-vacuity: a two-root site with a cross-root reference in which every page's links resolve; the hypotheses of
    C20_links_resolve_partial hold for it; a page within the hypotheses of C20_emit_tree_wf *)
@@ -126,6 +163,10 @@ Example C20_links_ok_witness : forallb (page_links_ok faithful_cfg w_site_ok) (s
 Proof. exact links_ok_witness. Qed.
 Example C20_pieces_ok_witness : forallb (fun n => pieces_ok (ns_page faithful_cfg n)) (site_pages w_site_ok) = true.
 Proof. vm_compute. reflexivity. Qed.
+Example C20_entry_templates_in_table :
+  forallb (fun k => match sk_lookup html_skeletons k with Some _ => true | None => false end) html_entry_templates = true
+  /\ (length html_entry_templates > 0)%nat.
+Proof. split; vm_compute; [reflexivity | lia]. Qed.
 Example C20_partial_premises_satisfiable :
   seg_ok (ns_name w_site_subns) = true /\ no_special [97; 32; 98; 46] = true /\ ae_ti conformant_cfg = false.
 Proof. vm_compute. repeat split. Qed.
